@@ -212,8 +212,10 @@ def run(ctx):
             ({"GOGC": "1", "GOMAXPROCS": "8", "GODEBUG": "clobberfree=1"}, 15)]
     if thorough:
         envs = [(e, k * 12) for e, k in envs]
+    if found:
+        envs = []   # a concrete failing input already exists: the stress sampling would add nothing (and may hang on broken tables)
     for env, k in envs:
-        rc, out = harness(["-mode", "gc", "-n", str(k), "-seed", str(ctx.seed)], timeout=1500, env=env)
+        rc, out = harness(["-mode", "gc", "-n", str(k), "-seed", str(ctx.seed)], timeout=(400 if not thorough else 2400), env=env)
         m = re.search(r"^OK rounds=(\d+) callbacks=(\d+) frames=(\d+) jit_frames=(\d+)", out, re.M)
         gc_runs.append({"env": env, "n": k, "rc": rc, "ok": bool(m) and rc == 0,
                         "rounds": int(m.group(1)) if m else 0, "callbacks": int(m.group(2)) if m else 0, "jit_frames": int(m.group(4)) if m else 0})
